@@ -138,6 +138,9 @@ class BitStringBitReader(BitReader):
             return self.bit_stream.read(fmt_string)
         except self.bitstring_Error as e:
             raise BitReadError(e.msg)
+        except ValueError as e:
+            # e.g. reading a bool at the end of the stream
+            raise BitReadError(str(e))
 
     def read_bytes(self, nbytes):
         return self._bit_stream_read('bytes:{}'.format(nbytes))
